@@ -638,3 +638,21 @@ T('R33-guard-clause', 'R33',
 T('R33-split-mid-nonzero-spelling', 'R33',
   [('lp.py', "beta1 = beta[:index] + ([] if mid == 0 else [mid]) + beta[index+1:]",
     "beta1 = beta[:index] + ([mid] if mid != 0 else []) + beta[index+1:]")])
+
+# ---------------------------------------------------------------------------------------- clauses added after seed round 4
+M('R29-raffine-without-const', 'R29',
+  [('lp.py', "        left = left + self.raffine[:, :num_rand] * support.const[:num_rand]\n",
+    "        left = left + self.raffine[:, :num_rand]\n")], 'random coefficients in the stationarity rows')
+M('R24-square-broadcast-conditional', 'R24',
+  [('lp.py', "        if self.xtype in 'S':\n            affine_in = (affine_in.reshape(self.affine_out.shape) + 0*other)\n",
+    "        if self.xtype in 'S' and np.size(other) > 1:\n            affine_in = (affine_in.reshape(self.affine_out.shape) + 0*other)\n")],
+  'element-wise atom')
+M('R10-slice-copies-mask', 'R10',
+  [('lp.py', "        self.event_adapt = dvars.event_adapt\n        self.rand_adapt = dvars.rand_adapt\n        self.dvars = dvars\n",
+    "        self.event_adapt = dvars.event_adapt\n        self.rand_adapt = np.array(dvars.rand_adapt)\n        self.dvars = dvars\n")],
+  'slice state self.rand_adapt')
+M('R35-searchsorted-unsorted', 'R35',
+  [('gcp.py', "                socp_idx = flat(primal.qmat)\n", "                socp_idx = flat(primal.qmat)\n                below = np.searchsorted(np.array(socp_idx), pvar_num)\n")],
+  'search on an unsorted sequence')
+T('R35-searchsorted-sorted', 'R35',
+  [('gcp.py', "                socp_idx = flat(primal.qmat)\n", "                socp_idx = flat(primal.qmat)\n                below = np.searchsorted(np.sort(socp_idx), pvar_num)\n")])
